@@ -410,7 +410,8 @@ def pass_bytes(p, classes, nglyphs, subtable_off):
     orulemap, rulemap = [], []
     for o in order:
         if is_acc(o):
-            orulemap.append(len(rulemap)); rulemap += acc[o]
+            # any order is valid on disk (the loader sorts by precedence): emit the reverse of precedence order
+            orulemap.append(len(rulemap)); rulemap += list(reversed(acc[o]))
     orulemap.append(len(rulemap))
     ccode, ocons = b'', []
     cons = [bytes.fromhex(r['raw_constraint']) if r.get('raw_constraint') is not None else compile_constraint(r.get('constraint')) for r in rules]
